@@ -210,7 +210,7 @@ Proof.
                      | Some c' => invF cfg (st_pc x) (st_st x) c' | None => false end).
   change (G (step cfg p s) = true).
   destruct c.
-  all: destruct p; try discriminate; unfold step, loop_once, loop_up, read_pending; bproj.
+  all: destruct p; try discriminate; unfold step, loop_once, loop_up, lose, read_pending; bproj.
   all: repeat f1.
   all: subst G; timeout 100 f_leaf.
 Qed.
